@@ -25,11 +25,18 @@ ALLKEYS = ('idpA', 'idpA2', 'idpAenc', 'idpB', 'spX', 'spXenc1', 'spXenc2', 'spY
 def idp_for(enc_layout):
     k = ('idp', enc_layout)
     if k not in _c:
-        keys = [('spX', 'signing')] + [(n, 'encryption') for n in {'one': ['spXenc1'], 'two': ['spXenc1', 'spXenc2'], 'none': [], 'no-use': []}[enc_layout]]
+        keys = [('spX', 'signing')] + [(n, 'encryption') for n in {'one': ['spXenc1'], 'two': ['spXenc1', 'spXenc2'], 'none': [], 'no-use': [], 'other-role': []}[enc_layout]]
         if enc_layout == 'no-use':
             # the SP publishes one key without a use attribute: good for signing and for encryption
             keys = [('spXenc1', None)]
-        _c[k] = world.make_idp(TMP[0], [world.sp_md(keys=tuple(keys))])
+        md = world.sp_md(keys=tuple(keys))
+        if enc_layout == 'other-role':
+            # a multi-role entity (proxy): the SP role descriptor carries a signing key only, the entity's encryption
+            # key sits on its IdP role descriptor
+            md = md.replace('</md:EntityDescriptor>', '<md:IDPSSODescriptor protocolSupportEnumeration="%s">%s'
+                            '<md:SingleSignOnService Binding="%s" Location="https://spx.example/proxy/sso"/></md:IDPSSODescriptor>'
+                            '</md:EntityDescriptor>' % (world.PROTO, world.key_descriptor('spXenc1', 'encryption'), world.BINDING_HTTP_REDIRECT))
+        _c[k] = world.make_idp(TMP[0], [md])
     return _c[k]
 
 
@@ -46,6 +53,14 @@ def emit_cells(thorough):
     # main assertion (subject, conditions) must be encrypted as well
     for layout, sr, sa, enc, percert in itertools.product(('one', 'two', 'none'), (False, True), (False, True), (False, True), (None, 'spXenc2', 'spY')):
         out.append(dict(t='emit', layout=layout, sr=sr, sa=sa, enc=enc, adv=True, selfc=True, percert=percert, seq=False, pefim=True))
+    # the encryption key published on another role descriptor of the SP's entity
+    for sr, sa, adv, pefim in itertools.product((False, True), (False, True), (False, True), (False, True)):
+        if pefim and not adv:
+            continue
+        out.append(dict(t='emit', layout='other-role', sr=sr, sa=sa, enc=True, adv=adv, selfc=True, percert=None, seq=False, pefim=pefim))
+    # the attribute authority's entry point (AttributeQuery answers) takes the same encryption options
+    for layout, sr, sa, selfc in itertools.product(('one', 'two', 'no-use', 'other-role'), (False, True), (False, True), (True,)):
+        out.append(dict(t='emit', layout=layout, sr=sr, sa=sa, enc=True, adv=False, selfc=selfc, percert=None, seq=False, via='attribute-response'))
     # sequences on one long-lived Server: metadata certificate first, then a per-request certificate (and reverse)
     for first, second in ((None, 'spXenc2'), ('spXenc2', None), ('spXenc2', 'spY'), (None, None)):
         out.append(dict(t='emit', layout='one', sr=True, sa=True, enc=True, adv=False, selfc=True, percert=second, seq=True, first=first))
@@ -75,6 +90,9 @@ def emit_once(idp, c, percert):
         kw['encrypt_cert_assertion'] = world.cert_b64(percert)
         if c['adv']:
             kw['encrypt_cert_advice'] = world.cert_b64(percert)
+    if c.get('via') == 'attribute-response':
+        kw.pop('encrypted_advice_attributes')
+        return str(idp.create_attribute_response(ident, 'req1', ACS_POST, SP_X, name_id=nid, **kw))
     return str(idp.create_authn_response(ident, 'req1', ACS_POST, SP_X, name_id=nid, authn={'class_ref': forge.PASSWORD}, **kw))
 
 
@@ -95,7 +113,7 @@ def evaluate_emit(c):
     if c['seq']:
         _c.pop(('idp', c['layout']), None)
     has_cert = c['layout'] != 'none' or c['percert']
-    recipient = c['percert'] or {'one': 'spXenc1', 'two': 'spXenc1', 'none': None, 'no-use': 'spXenc1'}[c['layout']]
+    recipient = c['percert'] or {'one': 'spXenc1', 'two': 'spXenc1', 'none': None, 'no-use': 'spXenc1', 'other-role': 'spXenc1'}[c['layout']]
     main_encrypted = c['enc'] and has_cert
     advice_only = c.get('pefim') and has_cert and not c['enc']
     if not main_encrypted and not advice_only:
@@ -250,6 +268,10 @@ def accept_cells(thorough):
         out.append(dict(t='wrap', coords=coords, wants=(False, True, False), doc=xml))
         if thorough:
             out.append(dict(t='wrap', coords=coords, wants=(False, False, True), doc=xml))
+    # a stray EncryptedData element (an unsigned forged assertion inside) as a direct child of the Response, in front of
+    # / behind the genuine EncryptedAssertion
+    for where, wants, kind in itertools.product(('before', 'after', 'before-issuer'), WANTS, ('expired-unsigned', 'fresh-unsigned')):
+        out.append(dict(t='stray', where=where, wants=wants, kind=kind))
     # encrypted advice carrying a tampered signed assertion
     for tam in (False, True):
         out.append(dict(t='advice', tampered=tam, wants=(True, False, False)))
@@ -326,6 +348,29 @@ def evaluate_accept(c):
             y = c01.judge(x, e, tuple(c['wants']), True)
             if y:
                 bad = 'wrapped-inside-ciphertext:%s' % y
+        return {'enc': [e['accept'], e.get('exc')], 'bad': bad}
+    if c['t'] == 'stray':
+        now = env.BASE
+        genuine = build_doc('valid-signed', True, False)
+        evil = forge.assertion(now, aid='EVIL1', attrs=(('title', (MARK['adv_value'],)),), subject='mallory',
+                               **(dict(cond_nooa=-10, audiences=(('urn:vp:someone-else',),)) if c['kind'] == 'expired-unsigned' else {}))
+        tmp = forge.encrypt_assertions(forge.response(now, [evil]), 'spXenc1')
+        m = re.search(r'<xenc:EncryptedData.*?</xenc:EncryptedData>', tmp, flags=re.S)
+        stray = m.group(0)
+        if 'xmlns:xenc' not in stray.split('>', 1)[0]:
+            stray = stray.replace('<xenc:EncryptedData', '<xenc:EncryptedData xmlns:xenc="http://www.w3.org/2001/04/xmlenc#"', 1)
+        if c['where'] == 'before':
+            x = genuine.replace('<saml:EncryptedAssertion', stray + '<saml:EncryptedAssertion', 1)
+        elif c['where'] == 'after':
+            x = genuine.replace('</saml:EncryptedAssertion>', '</saml:EncryptedAssertion>' + stray, 1)
+        else:
+            x = genuine.replace('<saml:Issuer', stray + '<saml:Issuer', 1)
+        assert x != genuine
+        sp = sp_for('first', tuple(c['wants']))
+        e = oracle.accept_response(sp, x, outstanding=OUTSTANDING)
+        bad = None
+        if e['accept'] and (MARK['adv_value'] in repr(e['identity']['ava']) or e['identity']['name_id'][0] != 'alice'):
+            bad = 'content-of-stray-encrypted-data-adopted'
         return {'enc': [e['accept'], e.get('exc')], 'bad': bad}
     if c['t'] == 'advice':
         now = env.BASE
